@@ -102,6 +102,24 @@ impl FlopExhaustiveEvaluatorIterator {
     }
 }
 
+// verification hook: compiled only with `--cfg espada_verif` (never in a normal build).
+// Read-only view of the odometer, used by the conformance harness in /verif to compare the
+// iterator's internal state with the TLA+ model of this file after every call of next().
+#[cfg(espada_verif)]
+impl FlopExhaustiveEvaluatorIterator {
+    pub fn verif_state(&self) -> (u8, u8, Vec<usize>) {
+        (
+            self.current_turn_index,
+            self.current_river_index,
+            self.current_player_indexes.iter().map(|i| *i as usize).collect(),
+        )
+    }
+
+    pub fn verif_entries(&self) -> Vec<Vec<(CardPair, f32)>> {
+        self.player_entries.clone()
+    }
+}
+
 impl FlopExhaustiveEvaluatorIterator {
     // examines one deal and moves on to the following one: None at the end of
     // the scope, Some(None) when the deal is blocked, Some(Some(_)) otherwise.
